@@ -132,6 +132,10 @@ def h_compute(h):
     deltas = [1.0, 1.5] if not h.cfg["scalar_delta"] else 1.0
     if h.cfg["scalar_delta"]:
         limits = [(0.25, 1.25), (1.0, 2.0 if h.cfg["ny"] == 2 else 3.0)]
+    if h.cfg.get("ragged"):
+        # limits whose extent is NOT a multiple of the cell size: the grid still has cells of the requested size
+        # (the last centre may lie beyond the upper limit), the cell size is never adjusted to the limits
+        limits = [(0.25, 0.9), (1.0, 1.9 if h.cfg["ny"] == 2 else 3.4)]
     nx, ny = 2, h.cfg["ny"]
     dens = [[h.real(f"f{i}_{j}", 0.0, 1.0) for j in range(ny)] for i in range(nx)]
 
@@ -156,6 +160,13 @@ def h_compute(h):
     dl = c.deltas
     area = float(dl[0]) * float(dl[1])
     shape = (nx, ny)
+    want_d = [deltas, deltas] if h.cfg["scalar_delta"] else list(deltas)
+    for ax in range(2):
+        g = np.asarray(sym.concretize(np.asarray(cc[ax])), dtype=float)
+        h.check(abs(float(dl[ax]) - want_d[ax]) < 1e-12, "cell-size-as-requested")
+        h.check(abs(g[0] - min(limits[ax])) < 1e-12, "grid-starts-at-the-lower-limit")
+        h.check(bool(np.all(np.abs(np.diff(g) - want_d[ax]) < 1e-9)), "grid-spacing-is-the-requested-cell-size", f"axis {ax}: {g}")
+        h.check(g[-1] + want_d[ax] > max(limits[ax]) - 1e-12, "grid-covers-the-upper-limit", f"axis {ax}: {g}")
     prob = {idx: dens[idx[0]][idx[1]] * area for idx in np.ndindex(shape)}
     tot = sum(prob.values())
     coords = c.coordinates
@@ -239,7 +250,9 @@ def obligations(tier):
                 yield ("cellprob", h_cellprob, {"struct": skey(st), "rot": rot}, {})
     for ny in ((2,) if tier == "quick" else (2, 3)):
         for sd in (False, True):
-            yield ("compute", h_compute, {"ny": ny, "scalar_delta": sd}, {"max_paths": 50000, "timeout_ms": 60000})
+            for ragged in (False, True):
+                yield ("compute", h_compute, {"ny": ny, "scalar_delta": sd, "ragged": ragged},
+                       {"max_paths": 50000, "timeout_ms": 60000})
     for nd in (2, 3):
         for dl in (None, 0.5):
             yield ("defaults", h_defaults, {"n_dim": nd, "deltas": dl}, {})
